@@ -5,7 +5,7 @@ import json, os, subprocess, sys, glob
 sys.path.insert(0, '/verif')
 from vp import selftest, common
 EXTRA = {"C10": ["C20"], "C08": ["C20", "C13"], "C01": ["C02", "C20"], "C02": ["C01", "C14", "C13", "C03"], "C03": ["C18", "C16", "C01", "C02"], "C07": [], "C14": ["C18"],
-         "C15": ["C07"], "C16": ["C03"], "C18": ["C03"], "C11": ["C04"], "C04": ["C11"],
+         "C15": ["C07"], "C16": ["C03"], "C18": ["C03", "C20"], "C11": ["C04"], "C04": ["C11"],
          "C05": ["C06"], "C06": ["C05"], "C12": ["C01", "C11", "C20"], "C13": ["C14", "C16", "C20"], "C09": ["C14", "C13"], "C20": ["C14"]}
 names = sys.argv[1:] or sorted(os.listdir('/verif/seeded'))
 for name in names:
